@@ -72,7 +72,7 @@ def main(tier: str) -> int:
         raise common.Inconclusive('g++ / clang++-14 not available')
     run = common.Run(PROP, tier)
     n = 12 if tier == 'quick' else 500
-    run.require('stimuli', 'arrivals', 'args_compared', 'returns_compared', 'programs',
+    run.require('stimuli', 'arrivals', 'args_compared', 'returns_compared', 'programs', 'arrivals_at_a_handler_bound_again',
                 'programs_multiclient', 'programs_with_ports_sharing_an_interface',
                 'programs_with_same_named_externs_in_unrelated_namespaces',
                 'nested_out_events_raised', 'nested_out_events_to_the_claim_holder')
@@ -104,7 +104,13 @@ def replay_program(prop, worker, path):
     case = body['case']
     scratch = tempfile.mkdtemp(prefix='dznpy-verif-replay-')
     try:
-        res = worker((case['seed'], case['stream'], scratch, body.get('tier', 'quick')))
+        job = (case['seed'], case['stream'], scratch, body.get('tier', 'quick'))
+        if case.get('surroundings'):
+            from .. import surroundings  # pylint: disable=import-outside-toplevel
+            print(f'(evaluated in a child interpreter, surroundings: {case["surroundings"]})')
+            res = surroundings.run_chunk(case['surroundings'], worker, [job])[0]
+        else:
+            res = worker(job)
     finally:
         shutil.rmtree(scratch, ignore_errors=True)
     for v in res['violations']:
